@@ -65,7 +65,7 @@ def decisionSpec (acl : List Rule) (a : Addr) (perm : Perm) : Decision :=
 def judgeAcl (inp obs : List String) : Verdict :=
   match kv inp "rules", (kv inp "client").bind parseAddr, (kv inp "perm").bind parsePerm, obs with
   | some rs, some a, some perm, [o] =>
-    if o.startsWith "panic" then { corr := "differ:impl-panic", spec := "unsat:C08.no_panic:require_permission" } else
+    if o.startsWith "panic" then { corr := "differ:impl-panic", spec := "unsat:C08.no_panic:require_permission;unsat:C19.accepted_config_safe:acl-panic" } else
     match (if rs = "-" then some [] else (rs.splitOn "+").mapM parseRule) with
     | some rules =>
       let m := showDecision (requirePermission rules a perm)
